@@ -46,10 +46,11 @@ func init() {
 			}
 			return 150
 		},
-		Batch:            4,
-		Workers:          8,
+		Batch:   4,
+		Workers: 8,
 		// no race-build share: the web cache's boltdb (dependency) trips checkptr under -race
 		PanicIsViolation: true,
+		BenignCrash:      cluster.StartupRace,
 		Env:              []string{"VERIF_TIMER_DIV=10"},
 		Run:              runC13,
 	})
